@@ -718,13 +718,23 @@ def _ivec(r, n, cplx=False, lo=-4, hi=4):
     return v
 
 
+def _distinct(r, n, cplx=False):
+    """Non-constant vector with pairwise distinct non-zero entries (a diagonal applied along the wrong axis must show)."""
+    v = list(range(1, n + 1))
+    r.shuffle(v)
+    v = [a if k % 2 == 0 else -a - 1 for k, a in enumerate(v)]
+    return [[a, r.randint(1, 3) * (1 if k % 2 else -1)] for k, a in enumerate(v)] if cplx else v
+
+
 def _axes_of(dims):
     nd = len(dims)
     return list(range(nd)) + list(range(-nd, 0))
 
 
-ND_SHAPES_Q = [[3, 4], [2, 3, 4]]
-ND_SHAPES_T = [[3, 4], [4, 3], [1, 5], [2, 3, 4], [3, 2, 2], [2, 1, 3]]
+# all-different lengths AND shapes where dims[axis] equals another axis length (an operator that picks the
+# wrong axis of equal length keeps every shape consistent and is only seen against the documented matrix)
+ND_SHAPES_Q = [[3, 4], [2, 3, 4], [3, 3], [3, 2, 3], [2, 3, 3]]
+ND_SHAPES_T = [[3, 4], [4, 3], [1, 5], [2, 3, 4], [3, 2, 2], [2, 1, 3], [3, 3], [4, 4], [3, 2, 3], [2, 3, 3], [4, 3, 4]]
 
 
 def grid(tier):
@@ -741,6 +751,8 @@ def grid(tier):
     for n in (sizes if th else [1, 2, 5, 8]):
         for b, a in ([(0, 0), (1, 0), (0, 2), (2, 3), (3, 1)] if th else [(0, 0), (1, 0), (0, 2), (2, 3)]):
             add("Pad", dims=[n], pad=[[b, a]])
+    add("Pad", dims=[3, 3], pad=[[1, 0], [0, 2]])
+    add("Pad", dims=[2, 3, 2], pad=[[0, 2], [1, 1], [1, 0]])
     add("Pad", dims=[2, 3], pad=[[1, 0], [0, 2]])
     add("Pad", dims=[3, 2], pad=[[0, 0], [1, 1]])
     add("Pad", dims=[2, 3, 2], pad=[[1, 1], [0, 2], [1, 0]])
@@ -803,7 +815,7 @@ def grid(tier):
     for d in nds:
         for ax in _axes_of(d):
             for c in (False, True):
-                add("Diagonal", dims=d, axis=ax, d=_ivec(r, d[ax], c))
+                add("Diagonal", dims=d, axis=ax, d=_distinct(r, d[ax], c))
         for c in (False, True):
             add("Diagonal", dims=d, full=True, d=_ivec(r, prod(d), c))
     # ---- Transpose
